@@ -34,7 +34,7 @@ UNIT_TIMEOUT = {"quick": 200, "thorough": 600}
 # In both the patched name is not in the owner's own __dict__ before the patch and must not be afterwards.
 TARGETS = ["fn", "meth", "cmeth", "smeth", "const", "sub_meth", "sub_cmeth", "sub_smeth", "inst_meth"]
 ABSENT = object()
-REPLS = ["default", "function", "bound", "callable_obj", "explicit_mock", "new_callable", "noncallable", "classmethod_fn", "staticmethod_fn", "spec_set", "new_callable_fn", "new_callable_bound", "new_callable_obj"]
+REPLS = ["default", "function", "bound", "callable_obj", "explicit_mock", "new_callable", "noncallable", "classmethod_fn", "staticmethod_fn", "spec_set", "new_callable_fn", "new_callable_bound", "new_callable_obj", "frozen_type"]
 ACTS = ["with", "decorator", "classdeco", "startstop"]
 EXITS = ["normal", "exception", "stopall"]
 COMPS = ["single", "nested", "nested_same_replacement", "sequential", "same_patcher_again", "nested_stopall"]
@@ -179,6 +179,22 @@ def make_replacement(kind, rec):
         return {"new_callable": mock.MagicMock}, "mock"
     if kind == "noncallable":
         return {"new": 42}, None
+    if kind == "frozen_type":
+        # a callable that HAS a __dict__ but refuses new attributes, like builtin and extension types (dict, list,
+        # a compiled class) do - here a class whose metaclass rejects attribute assignment, so that calls can be recorded
+        class Meta(type):
+            def __setattr__(cls, name, value):
+                raise TypeError("cannot set %r attribute of immutable type %r" % (name, cls.__name__))
+
+            def __delattr__(cls, name):
+                raise TypeError("cannot delete %r attribute of immutable type %r" % (name, cls.__name__))
+
+        class Frozen(metaclass=Meta):
+            def __new__(cls, *args, **kwargs):
+                rec.calls.append((args, tuple(sorted(kwargs.items()))))
+                return result_for(len(args))
+
+        return {"new": Frozen}, None
     if kind == "new_callable_fn":
         # a factory whose product is a plain function / a bound method / a callable object
         def factory():
@@ -284,7 +300,7 @@ def check_inside_one(get, entered, rec, repl, target, viol, via):
         want = None
         if repl == "classmethod_fn":
             want = (via, 3)  # a classmethod replacement is bound to the class it is reached through
-        elif repl in ("staticmethod_fn", "bound", "callable_obj", "new_callable_bound", "new_callable_obj"):
+        elif repl in ("staticmethod_fn", "bound", "callable_obj", "new_callable_bound", "new_callable_obj", "frozen_type"):
             want = (3,)
         if want is not None and args != want:
             viol.append(("replacement-got-wrong-arguments", {"convention": name, "recorded": repr(new_calls[0])[:120], "expected_positional": repr(want)[:80]}))
